@@ -640,11 +640,19 @@ fn compile(asm: &Assembler, src: &str) -> Comp {
     }
 }
 
+/// panics observed by helper probes that have no report at hand (site, message, source, world)
+static PROBE_PANICS: std::sync::Mutex<Vec<(String, String, String, Value)>> = std::sync::Mutex::new(Vec::new());
+
 /// hash of `src` compiled on a fresh instance (None if it does not compile)
 fn fresh_hash(world: &World, built: &[MaslLibrary], src: &str) -> Option<W> {
     match fresh(world, built, &identity(built.len())) {
         Built::Ok(a) => match compile(&a, src) {
             Comp::Ok(p) => Some(to_w(p.hash())),
+            Comp::Panic(pi) => {
+                // never swallow a panic of the assembler: `run` reports these at the end
+                PROBE_PANICS.lock().unwrap().push((pi.site(), pi.message.clone(), src.to_string(), world.to_json()));
+                None
+            }
             _ => None,
         },
         _ => None,
@@ -1241,19 +1249,74 @@ fn gen_kernel(rng: &mut Rng8) -> Module {
 }
 
 /// computes the MAST roots of all procedures of module `idx` (module must be rendered in `world`)
-fn compute_roots(u: &mut Universe, idx: usize, world: &World, built: &[MaslLibrary]) -> bool {
+fn compute_roots(u: &mut Universe, idx: usize, world: &World, built: &[MaslLibrary], rep: &mut Report) -> bool {
     let m = u.mods[idx].clone();
     let mut ok = true;
+    let mut failed_reexp: Vec<(String, String, Tgt)> = vec![];
+    let mut normal_failed = 0;
     for p in &m.procs {
+        let is_reexp = matches!(p.kind, PK::ReExp(_));
         let src = match &p.kind {
             PK::ReExp(_) => format!("use.{}->zq9\nbegin exec.zq9::{} end", m.path, p.name),
             _ => u.render_root_probe(&m, idx, &p.name),
         };
-        match fresh_hash(world, built, &src) {
-            Some(w) => {
-                u.roots.insert((idx, p.name.clone()), w);
+        let comp = match fresh(world, built, &identity(built.len())) {
+            Built::Ok(a) => compile(&a, &src),
+            _ => Comp::Err("assembler-unavailable".into()),
+        };
+        match comp {
+            Comp::Ok(prog) => {
+                u.roots.insert((idx, p.name.clone()), to_w(prog.hash()));
             }
-            None => ok = false,
+            Comp::Panic(pi) => {
+                // a one-line program that only invokes a procedure of a successfully built
+                // library must never panic the assembler, whatever the library looks like
+                let mut w = world.to_json();
+                w["kind"] = json!("probe");
+                w["program"] = json!(src);
+                let kind = if is_reexp { "re-export" } else { "procedure" };
+                rep.violation(format!("panic/root-probe/{kind}/{}", pi.site()), format!("assembler panicked compiling `{}` against successfully built libraries: {}", src.replace('\n', " "), pi.message), w);
+                rep.count("root_probe_fail", &format!("panic:{}", pi.site()));
+                ok = false;
+            }
+            Comp::Err(e) => {
+                rep.count("root_probe_fail", &format!("{}:{}", if is_reexp { "re-export" } else { "procedure" }, truncate(&e, 60)));
+                ok = false;
+                // errors here normally come from the 'same MAST, different number of locals' rule
+                // hitting a generated module: the universe is discarded. A re-export is judged
+                // below, once it is known whether the rest of its module compiles.
+                if let PK::ReExp(t) = &p.kind {
+                    failed_reexp.push((src.clone(), e.clone(), u.resolve(t, None)));
+                } else {
+                    normal_failed += 1;
+                }
+            }
+        }
+    }
+    // re-export-specific failure: every normal procedure of the module (at least one) compiles, the
+    // original compiles when invoked directly, but the re-exported name does not
+    let module_ok = m.procs.iter().find(|p| p.export && !matches!(p.kind, PK::ReExp(_))).map(|p| {
+        let through = format!("use.{}->zq9\nbegin exec.zq9::{} end", m.path, p.name);
+        match fresh(world, built, &identity(built.len())) {
+            Built::Ok(a) => matches!(compile(&a, &through), Comp::Ok(_)),
+            _ => false,
+        }
+    });
+    if normal_failed == 0 && module_ok == Some(true) {
+        for (src, e, orig) in failed_reexp {
+            let direct = format!("use.{}->zq9\nbegin exec.zq9::{} end", u.mods[orig.m].path, orig.name);
+            let dcomp = match fresh(world, built, &identity(built.len())) {
+                Built::Ok(a) => compile(&a, &direct),
+                _ => Comp::Err("assembler-unavailable".into()),
+            };
+            rep.count("root_probe_fail_direct", dcomp.class());
+            if matches!(dcomp, Comp::Ok(_)) {
+                let mut w = world.to_json();
+                w["kind"] = json!("reexport");
+                w["via"] = json!(src);
+                w["direct"] = json!(direct);
+                rep.violation("re-export/outcome/exec", format!("`{}` fails ({}) while its module's own procedures and the original `{}` compile", src.replace('\n', " "), truncate(&e, 80), direct.replace('\n', " ")), w);
+            }
         }
     }
     ok
@@ -1394,7 +1457,7 @@ fn gen_universe(rng: &mut Rng8, rep: &mut Report) -> Option<Universe> {
                 return None;
             }
         };
-        if !compute_roots(&mut u, idx, &world, &built) {
+        if !compute_roots(&mut u, idx, &world, &built, rep) {
             rep.count("harness", "root-unavailable");
             return None;
         }
@@ -2430,6 +2493,12 @@ pub fn run(cfg: &Cfg) -> Report {
         rep
     });
     let mut rep = merge_all(reports);
+    for (site, msg, src, world) in PROBE_PANICS.lock().unwrap().drain(..) {
+        let mut w = world;
+        w["kind"] = json!("probe");
+        w["program"] = json!(src);
+        rep.violation(format!("panic/probe/{site}"), format!("assembler panicked compiling `{}`: {msg}", src.replace('\n', " ")), w);
+    }
     // floors
     for k in KINDS {
         rep.floor(rep.get_count("kind_cold", k) >= 20, &format!("{k}-compiled-cold"));
@@ -2503,6 +2572,17 @@ pub fn replay(v: &Value, rep: &mut Report) {
                 check_reexport_call(&world, &built, via, direct, rep);
             } else if fresh_hash(&world, &built, via) != fresh_hash(&world, &built, direct) {
                 rep.violation("re-export/root-mismatch/exec", "re-exported procedure compiles to a different MAST root", v.clone());
+            }
+        }
+        "probe" => {
+            let Some(world) = World::from_json(v) else { return };
+            let Ok(built) = world.build() else { return };
+            let src = v.get("program").and_then(|s| s.as_str()).unwrap_or("");
+            rep.eval("replay|probe");
+            if let Built::Ok(a) = fresh(&world, &built, &identity(built.len())) {
+                if let Comp::Panic(pi) = compile(&a, src) {
+                    rep.violation(format!("panic/root-probe/{}", pi.site()), format!("assembler panicked: {}", pi.message), v.clone());
+                }
             }
         }
         "invalid" => {
